@@ -2201,10 +2201,10 @@ theorem hstep_ok (s0 : PS n) (calls : List (Action n)) (h : HS n) (ev : Ev n) (h
     | cons a q =>
       simp only []
       refine ⟨?_, ?_, ?_⟩
-      · show (step h.ps (a.toOp ord) hint).1 = run s0 ((h.log ++ [⟨some a, a.toOp ord, hint⟩]).map _)
+      · show (step h.ps (a.toOp ord) hint).1 = run s0 ((h.log ++ [(⟨some a, a.toOp ord, hint⟩ : LogEntry n)]).map (fun e => (e.op, e.hint)))
         rw [List.map_append, run_append, ← logOps, ← hk.sem]
         rfl
-      · show (h.log ++ [⟨some a, a.toOp ord, hint⟩]).filterMap (·.act) ++ q = calls
+      · show (h.log ++ [(⟨some a, a.toOp ord, hint⟩ : LogEntry n)]).filterMap (·.act) ++ q = calls
         rw [List.filterMap_append, ← hk.fifo, hq]
         simp
       · intro e he
@@ -2214,10 +2214,10 @@ theorem hstep_ok (s0 : PS n) (calls : List (Action n)) (h : HS n) (ev : Ev n) (h
   | fire hint =>
     simp only [callsOf, List.append_nil]
     refine ⟨?_, ?_, ?_⟩
-    · show (step h.ps .tick hint).1 = run s0 ((h.log ++ [⟨none, .tick, hint⟩]).map _)
+    · show (step h.ps .tick hint).1 = run s0 ((h.log ++ [(⟨none, .tick, hint⟩ : LogEntry n)]).map (fun e => (e.op, e.hint)))
       rw [List.map_append, run_append, ← logOps, ← hk.sem]
       rfl
-    · show (h.log ++ [⟨none, .tick, hint⟩]).filterMap (·.act) ++ h.queue = calls
+    · show (h.log ++ [(⟨none, .tick, hint⟩ : LogEntry n)]).filterMap (·.act) ++ h.queue = calls
       rw [List.filterMap_append, ← hk.fifo]
       simp
     · intro e he
@@ -2254,26 +2254,13 @@ theorem C30_actor_fifo (maxIn maxOut : Nat) (ro : Bool) (evs : List (Ev n)) :
   simp only [List.nil_append] at hk
   exact ⟨hk.sem, hk.fifo, hk.ops⟩
 
-/-- once the queue is drained and the ticker has not fired, the handler is in the state the
-    synchronous methods produce for the API calls in call order -/
-theorem C30_actor_drained (maxIn maxOut : Nat) (ro : Bool) (evs : List (Ev n))
-    (hq : (hrun (newHS maxIn maxOut ro : HS n) evs).queue = [])
-    (hnofire : ∀ e ∈ (hrun (newHS maxIn maxOut ro : HS n) evs).log, e.act ≠ none) :
-    (hrun (newHS maxIn maxOut ro : HS n) evs).log.filterMap (·.act) = callsOf evs ∧
-    ∃ ords hints, ords.length = (callsOf evs).length ∧ hints.length = (callsOf evs).length ∧
-      (hrun (newHS maxIn maxOut ro : HS n) evs).ps =
-        run (newPS maxIn maxOut ro)
-          (((callsOf evs).zip ords).zip hints |>.map (fun x => (x.1.1.toOp x.1.2, x.2))) := by
-  have h3 := C30_actor_fifo (n := n) maxIn maxOut ro evs
-  simp only [] at h3
-  obtain ⟨hsem, hfifo, hops⟩ := h3
-  rw [hq, List.append_nil] at hfifo
-  refine ⟨hfifo, ?_⟩
-  generalize (hrun (newHS maxIn maxOut ro : HS n) evs) = h at *
-  rw [hsem, ← hfifo]
-  clear hsem hfifo hq
-  unfold logOps
-  generalize h.log = log at *
+theorem log_as_calls (log : List (LogEntry n))
+    (hops : ∀ e ∈ log, (∃ a ord, e.act = some a ∧ e.op = a.toOp ord) ∨ (e.act = none ∧ e.op = .tick))
+    (hnofire : ∀ e ∈ log, e.act ≠ none) :
+    ∃ ords hints, ords.length = (log.filterMap (·.act)).length ∧
+      hints.length = (log.filterMap (·.act)).length ∧
+      log.map (fun e => (e.op, e.hint)) =
+        (((log.filterMap (·.act)).zip ords).zip hints).map (fun x => (x.1.1.toOp x.1.2, x.2)) := by
   induction log with
   | nil => exact ⟨[], [], rfl, rfl, rfl⟩
   | cons e log ih =>
@@ -2283,11 +2270,55 @@ theorem C30_actor_drained (maxIn maxOut : Nat) (ro : Bool) (evs : List (Ev n))
     · refine ⟨ord :: ords, e.hint :: hints, ?_, ?_, ?_⟩
       · simp [List.filterMap_cons, ha, h1]
       · simp [List.filterMap_cons, ha, h2]
-      · simp only [List.filterMap_cons, ha, List.map_cons, List.zip_cons_cons, hop]
-        show run _ _ = run _ _
-        unfold run
-        simp only []
-        sorry
+      · simp [List.filterMap_cons, ha, hop, h3]
     · exact absurd hn' (hnofire e (List.mem_cons_self ..))
+
+/-- once the queue is drained and the ticker has not fired, the handler is in the state the
+    synchronous methods produce for the API calls in call order -/
+theorem C30_actor_drained (maxIn maxOut : Nat) (ro : Bool) (evs : List (Ev n))
+    (hq : (hrun (newHS maxIn maxOut ro : HS n) evs).queue = [])
+    (hnofire : ∀ e ∈ (hrun (newHS maxIn maxOut ro : HS n) evs).log, e.act ≠ none) :
+    ∃ ords hints, ords.length = (callsOf evs).length ∧ hints.length = (callsOf evs).length ∧
+      (hrun (newHS maxIn maxOut ro : HS n) evs).ps =
+        run (newPS maxIn maxOut ro)
+          ((((callsOf evs).zip ords).zip hints).map (fun x => (x.1.1.toOp x.1.2, x.2))) := by
+  have h3 := C30_actor_fifo (n := n) maxIn maxOut ro evs
+  simp only [] at h3
+  obtain ⟨hsem, hfifo, hops⟩ := h3
+  rw [hq, List.append_nil] at hfifo
+  obtain ⟨ords, hints, h1, h2, h3⟩ := log_as_calls _ hops hnofire
+  rw [hfifo] at h1 h2 h3
+  refine ⟨ords, hints, h1, h2, ?_⟩
+  rw [hsem]
+  unfold logOps
+  rw [h3]
+
+/-- the invariants hold for the public `Handler` API under every schedule -/
+theorem C30_handler_inv (hn : Fits n) (maxIn maxOut : Nat) (ro : Bool) (evs : List (Ev n)) :
+    let s := (hrun (newHS maxIn maxOut ro : HS n) evs).ps
+    s.numIn = cntIn s ∧ s.numOut = cntOut s ∧
+    (∀ p nd, s.nodes p = some nd → nd.st.connected = true → bannedThreshold ≤ nd.rep) ∧
+    (∀ p nd, s.nodes p = some nd → InRange nd.rep) := by
+  have h3 := C30_actor_fifo (n := n) maxIn maxOut ro evs
+  simp only [] at h3 ⊢
+  rw [h3.1]
+  have hI := run_inv hn _ (logOps (hrun (newHS maxIn maxOut ro : HS n) evs)) (newPS_inv (n := n) maxIn maxOut ro)
+  exact ⟨hI.cin, hI.cout, hI.noban, hI.range⟩
+
+/-- the slot maxima for the public API: whenever the operations the actor has applied are `safeRun` -/
+theorem C30_handler_slots_partial (hn : Fits n) (maxIn maxOut : Nat) (ro : Bool) (evs : List (Ev n))
+    (hsafe : safeRun (newPS maxIn maxOut ro : PS n) (logOps (hrun (newHS maxIn maxOut ro : HS n) evs))) :
+    (hrun (newHS maxIn maxOut ro : HS n) evs).ps.numIn ≤ maxIn ∧
+    (hrun (newHS maxIn maxOut ro : HS n) evs).ps.numOut ≤ maxOut := by
+  have h3 := C30_actor_fifo (n := n) maxIn maxOut ro evs
+  simp only [] at h3
+  rw [h3.1]
+  exact C30_slots_partial hn maxIn maxOut ro _ hsafe
+
+/-- `setReservedPeer` outside reserved-only mode unreserves at most one peer, whichever the map order
+    puts first: two reserved peers, `SetReservedPeer()` with the empty list, one stays reserved -/
+example : (fun s : PS 2 => (s.reserved 0, s.reserved 1))
+    (run (newPS 1 1 false : PS 2) [(.addReserved [0, 1], [.connect 0, .connect 1]), (.setReserved [] [1], [])])
+    = (true, false) := by decide
 
 end Gossamer.C30
